@@ -18,7 +18,7 @@ LEVEL = "exploration"
 RULE = (
     "one case per (history, prefix, probe): histories of 1-12 assemblies in one process (valid programs, programs failing in the scanner, "
     "parser, expansion, label pass and emission, .map programs, other ROM types, programs re-using the probes' macro/symbol/label/table/"
-    "file names with other contents, file-API and in-process CLI runs) followed after every prefix by 21 probes (LoROM, HiROM, low2, .map, "
+    "file names with other contents, file-API and in-process CLI runs) followed after every prefix by 22 probes (LoROM, HiROM, low2, .map, "
     "macros, tables, .incbin, -D, failing probes); each probe result (blocks, labels, root symbols, error kind and text with object "
     "addresses normalised) is compared with the same probe assembled alone in a fresh interpreter, and probes are repeated; distinct by "
     "hash of (history prefix, probe); non-trivial = every comparison against a fresh-process baseline"
@@ -60,6 +60,7 @@ def fixed_probes() -> list[dict]:
         {"name": "include_ips", "src": "*=0x008000\n.db 1\n.include_ips 'shared.ips', 0x200\n.db 2\n", "rom": None, "files": {"shared.ips": IPS_SHARED}},
         {"name": "include_ips_twice", "src": "*=0x008000\n.include_ips 'shared.ips', 0x1000\n.include_ips 'shared.ips', 0 - 0x200\n.db 3\n", "rom": None, "files": {"shared.ips": IPS_SHARED}},
         {"name": "reloc", "src": "*=0x008000\n@=0x7e0000\nram_code:\nlda.l ram_code\n*=0x018000\n.dl ram_code\n", "rom": None},
+        {"name": "fail_deep_recursion", "src": "*=0x008000\n.macro cdown(pn) {\n.db pn & 0xff\n.if pn {\ncdown(pn - 1)\n}\n}\ncdown(600)\n", "rom": None},
         {"name": "fail_scan", "src": "*=0x008000\nlda.q 1\n", "rom": None},
         {"name": "fail_symbol", "src": "*=0x008000\nlda.w shared_k\n", "rom": None},
         {"name": "fail_macro", "src": "*=0x008000\nshared_m(1)\n", "rom": None},
@@ -155,6 +156,9 @@ def history_action(rng: random.Random) -> dict:
     if c < 0.5:
         return {"what": "incbin", "src": f"*={addr:#x}\n.incbin 'blob.bin'\n" + rng.choice(["", "lda.w nowhere_q\n"]), "rom": None,
                 "files": {"blob.bin": rng.randbytes(rng.choice([0, 3, 40, 100]))}}
+    if c < 0.51:
+        # an ordinary but long source (thousands of tokens)
+        return {"what": "long", "src": f"*={addr:#x}\n" + "".join(f".db {i & 255}, {(i * 7) & 255}, 3, 4\n" for i in range(rng.choice([400, 1500, 3000]))), "rom": None}
     if c < 0.53:
         inc = rng.choice(["inc_l:\nlda.q 1\n", "inc_l:\n.db 'oops\n", ".include 'nofile_q.s'\n", "inc_l:\n{\n", "inc_l:\n.db 9\n"])
         return {"what": "include", "src": f"*={addr:#x}\n.include 'shared_inc.s'\n.db 5\n", "rom": None, "files": {"shared_inc.s": inc}}
